@@ -57,10 +57,14 @@ Step == /\ ~crashed /\ pc <= Len(Prog)
         /\ pc' = pc + 1 /\ UNCHANGED <<pair, crashed>>
 \* the sector subsets a power cut may persist: all of them when the cache is small,
 \* otherwise the generating family of the property statement
+\* the elements of a set of numbers in increasing order
+SetToSeq(S) == LET RECURSIVE F(_) 
+                   F(T) == IF T = {} THEN <<>> ELSE LET x == CHOOSE y \in T : \A z \in T : y <= z IN <<x>> \o F(T \ {x})
+               IN F(S)
 Family(C) ==
     IF Cardinality(C) <= ExhaustiveMax THEN SUBSET C
     ELSE LET k == Cardinality(C)
-             ord == CHOOSE f \in [1..k -> C] : \A i, j \in 1..k : i < j => f[i] < f[j] IN
+             ord == SetToSeq(C) IN
          {{}, C} \cup {{s} : s \in C}
          \cup {{ord[i] : i \in 1..m} : m \in 1..k} \cup {{ord[i] : i \in m..k} : m \in 1..k}
          \cup {{ord[i] : i \in {j \in 1..k : j % 2 = 0}}, {ord[i] : i \in {j \in 1..k : j % 2 = 1}}}
@@ -79,9 +83,6 @@ P_C09_Done   == Done => ReadBack(persisted) = [t |-> "new", rec |-> FALSE]
 TypeOK == persisted \subseteq 1..P.n /\ cached \subseteq 1..P.n
 
 \* behaviour emission: every crash state, with the model's prediction
-SetToSeq(S) == LET RECURSIVE F(_) 
-                   F(T) == IF T = {} THEN <<>> ELSE LET x == CHOOSE y \in T : \A z \in T : y <= z IN <<x>> \o F(T \ {x})
-               IN F(S)
 Emit == (crashed \/ Done) =>
           PrintT(<<"BEH", ToJson([pair |-> pair, pc |-> pc, done |-> Done, S |-> SetToSeq(persisted),
                                    pred |-> ReadBack(persisted)])>>)
